@@ -589,6 +589,30 @@ def _():
     return G.emit_strings('p_grad', rows, 'detach / no_grad sites (pinned shape)')
 
 
+@item('p_losses')
+def _():
+    """loss assembly (pinned shape): commitment / CE / orthogonal / diversity terms and weights of VectorQuantize, SimVQ, LFQ, LatentQuantize"""
+    rows = []
+    f = find_func(VQ, 'VectorQuantize.forward')
+    for n in ast.walk(f):
+        if isinstance(n, ast.Assign) and ast.unparse(n.targets[0]) in ('loss', 'commit_loss', 'orthogonal_reg_loss', 'codebook_diversity_loss', 'prob', 'avg_prob', 'loss_breakdown', 'inplace_optimize_loss'):
+            rows.append('vq:' + ast.unparse(n).replace('\n', ' '))
+    rows += ['vq.ce:' + ast.unparse(n).replace('\n', ' ') for n in find_func(VQ, 'VectorQuantize.forward.calculate_ce_loss').body]
+    rows += ['orth:' + ast.unparse(n).replace('\n', ' ') for n in find_func(VQ, 'orthogonal_loss_fn').body]
+    rows += ['entropy:' + ast.unparse(return_expr(VQ, 'entropy')), 'log:' + ast.unparse(return_expr(VQ, 'log'))]
+    rows += ['simvq:' + ast.unparse(n).replace('\n', ' ') for n in ast.walk(find_func(SIMVQ, 'SimVQ.forward')) if isinstance(n, ast.Assign) and ast.unparse(n.targets[0]) == 'commit_loss']
+    rows += ['simvq.return:' + ast.unparse(return_expr(SIMVQ, 'SimVQ.forward'))]
+    lf = find_func(LFQF, 'LFQ.forward')
+    for n in ast.walk(lf):
+        if isinstance(n, ast.Assign) and ast.unparse(n.targets[0]) in ('entropy_aux_loss', 'per_sample_entropy', 'codebook_entropy', 'avg_prob', 'commit_loss', 'aux_loss', 'prob', 'distance', 'per_sample_probs',
+                                                                       'entropy_aux_loss = per_sample_entropy = codebook_entropy'):
+            rows.append('lfq:' + ast.unparse(n).replace('\n', ' '))
+    rows += ['lfq.entropy:' + ast.unparse(return_expr(LFQF, 'entropy')), 'lfq.log:' + ast.unparse(return_expr(LFQF, 'log'))]
+    lqf = find_func(LQ, 'LatentQuantize.forward')
+    rows += ['latent:' + ast.unparse(n).replace('\n', ' ') for n in ast.walk(lqf) if isinstance(n, ast.Assign) and ast.unparse(n.targets[0]) in ('loss', 'commitment_loss', 'quantization_loss')]
+    return G.emit_strings('p_losses', rows, 'loss assembly (pinned shape)')
+
+
 # =============================================================================== inventories (G4)
 for fname, cls, tag in ((VQ, 'EuclideanCodebook', 'euclid'), (VQ, 'CosineSimCodebook', 'cosine'), (VQ, 'VectorQuantize', 'vq'),
                         (FSQF, 'FSQ', 'fsq'), (LFQF, 'LFQ', 'lfq'), (SIMVQ, 'SimVQ', 'simvq'), (RPQ, 'RandomProjectionQuantizer', 'rpq'),
